@@ -328,6 +328,25 @@ def run_embedded(prog):
     return r, res
 
 
+def canon_spy(prog, probe=None):
+    """canonical text of everything observable of a usim.py program, standalone and embedded (C02: this text is the same
+    in every process configuration - whatever the order of same-step events is, it is a function of the program)"""
+    import json
+    from .probe import Probe, _TLS
+    p = probe or Probe(b_step=20000, b_total=200000)
+    _TLS.stack.append(p)
+    try:
+        real, got = run_standalone(prog)
+        real2, got2 = run_embedded(prog)
+    finally:
+        _TLS.stack.pop()
+    for g in (got, got2):
+        if g['outcome'].startswith('other:AssertionError'):
+            g['usage_assertion'] = True
+    return json.dumps({'standalone': [real.log, real.cb, got], 'embedded': [real2.log, real2.cb, real2.watch_log, got2]},
+                      sort_keys=True, default=str, separators=(',', ':'))
+
+
 # ---------------------------------------------------------------------------------------------
 # reference simulator (documented SimPy semantics for the DSL)
 class MEvent:
